@@ -223,10 +223,18 @@ func genNS(r *Rng, withRoot bool) []Op {
 			}
 		case 7:
 			m := pickPerm(r)
-			if r.Intn(5) == 0 {
-				m |= 0o1000 // sticky bit via Chmod
+			if r.Intn(4) == 0 {
+				// sticky, setgid or setuid in io/fs.FileMode's own encoding: Chmod carries them, the entry's kind must not change
+				m |= []uint32{1 << 20, 1 << 22, 1 << 23}[r.Intn(3)]
 			}
 			ops = append(ops, Op{Kind: "chmod", P: p, Perm: m})
+			if m>>9 != 0 && r.Intn(2) == 0 && (p != "." || withRoot) {
+				// operations that look at the entry's kind, right after its mode gained a special bit
+				ops = append(ops, Op{Kind: []string{"remove", "readdir", "mkdir", "openclose"}[r.Intn(4)], P: p, Flag: r.Intn(64), Perm: pickPerm(r)})
+				if ops[len(ops)-1].Kind == "remove" && cls == "file" {
+					delete(s, p)
+				}
+			}
 		case 8:
 			ops = append(ops, Op{Kind: "chtimes", P: p, T: int64(r.Range(1, 5000))})
 		case 9:
